@@ -21,8 +21,11 @@ def unescape_string(value: str, token: Token, quote: str = '"') -> str:
     return "".join(unescaped)
 
 
-def _decode_escape_sequence(  # noqa: PLR0911
-    value: str, index: int, token: Token, quote: str
+def _decode_escape_sequence(  # noqa: PLR0911, PLR0912
+    value: str,
+    index: int,
+    token: Token,
+    quote: str,  # noqa: ARG001
 ) -> tuple[str, int]:
     try:
         ch = value[index]
@@ -30,8 +33,11 @@ def _decode_escape_sequence(  # noqa: PLR0911
         raise PestGrammarSyntaxError("incomplete escape sequence", token=token) from err
 
     # TODO: match these to Rust?
-    if ch == quote:
-        return quote, index
+    if ch in ('"', "'"):
+        # pest's `escape` rule admits both quotes in both kinds of literal.
+        return ch, index
+    if ch == "0":
+        return "\x00", index
     if ch == "\\":
         return "\\", index
     if ch == "/":
